@@ -210,6 +210,11 @@ def hunk_rows(out):
     return res
 
 
+def du_diff(name, lines):
+    return ("--- %s\t2020-01-01 00:00:00.000000000 +0000\n+++ %s\t2020-01-02 00:00:00.000000000 +0000\n@@ -1,5 +1,5 @@\n"
+            % (name, name) + "".join(" %s\n" % l for l in lines)).encode("utf-8")
+
+
 def run_lang_task(task):
     exts, deadline = task
     drv = explore.get_driver()
@@ -252,6 +257,28 @@ def run_lang_task(task):
         plain = hunk_rows(drv.render1(cid, make_diff("x.unknownext", content, "same")).out)
         if rows[0] != plain:
             coloured += 1
+        # the same for plain `diff -u` output (no `diff` line; names are followed by a tab and a time stamp), also
+        # when directory or file name contain a blank
+        if not ext.startswith(".") and " " not in ext:
+            du = [du_diff(nm, content) for nm in ("x." + ext, "my dir/y." + ext, "my x." + ext)]
+            res = drv.render(cid, du)
+            n += len(du)
+            drows = [hunk_rows(r.out) if not r.panic else None for r in res]
+            for j in (1, 2):
+                if drows[0] is not None and drows[j] is not None and drows[0] != drows[j]:
+                    k = "same-extension-different-colouring:diff-u"
+                    if k not in viols:
+                        v = Violation(k, "plain diff -u: %r and %r colour their hunks differently"
+                                      % ("x." + ext, ("my dir/y." + ext, "my x." + ext)[j - 1]), du[j].split(b"\n")[:-1])
+                        v.args = build_args(base)
+                        viols[k] = v
+            if drows[0] is not None and drows[0] != rows[0]:
+                k = "language-depends-on-diff-format"
+                if k not in viols:
+                    v = Violation(k, "x.%s is coloured differently in git and in plain diff -u format" % ext,
+                                  du[0].split(b"\n")[:-1])
+                    v.args = build_args(base)
+                    viols[k] = v
     # a file is not given the language of its *stem*: `<ext>.rs` is Rust whatever <ext> is
     rs_rows = hunk_rows(drv.render1(cid, make_diff("x.rs", content, "same")).out)
     stems = [e for e in exts if not e.startswith(".") and "/" not in e and " " not in e]
